@@ -89,6 +89,12 @@ Section Ok.
     induction H; simpl; constructor; auto. left; assumption.
   Qed.
 
+  Lemma ok_may_guard : forall s k kfix, family (Known kfix) = true -> ok V (may_guard V s k kfix).
+  Proof.
+    intros. unfold may_guard. constructor; [exact I|].
+    destruct (V s) eqn:E; (constructor; [|constructor]); [left; assumption|right; exact E].
+  Qed.
+
   Lemma ok_when : forall b m, ok V m -> ok V (when b m).
   Proof. intros. destruct b; simpl; [assumption|apply ok_ret]. Qed.
 
@@ -110,6 +116,7 @@ Ltac okstep :=
   | |- ok _ (seq _ _) => apply ok_seq
   | |- ok _ (may _) => apply ok_may; repeat constructor
   | |- ok _ (when _ _) => apply ok_when
+  | |- ok _ (may_guard _ _ _ _) => apply ok_may_guard; reflexivity
   | |- ok _ (if ?b then _ else _) => destruct b eqn:?
   | |- ok _ (match ?x with _ => _ end) => destruct x eqn:?
   | |- ok _ (let _ := _ in _) => cbv zeta
